@@ -324,6 +324,17 @@ def trial_ops(ctx):
         e = T([]) + a2
         res.append(('empty+a2', e, 0, 1))
         res.append(('a+empty', a + T([]), 1, 0))
+        # an empty LEFT operand with a non-trivial weight on the right one: difference, reduced exact cancellation, in place, weighted sums
+        res.append(('empty-a2', T([]) - a2, 0, -1))
+        res.append(('(a-a).reduce()-a2', (a - a).reduce() - a2, 0, -1))
+        res.append(('a-empty', a - T([]), 1, 0))
+        t = T([]); t -= a2
+        res.append(('empty-=a2', t, 0, -1))
+        al, be = float(rng.uniform(0.4, 2.) * rng.choice([-1, 1])), float(rng.uniform(0.4, 2.) * rng.choice([-1, 1]))  # real weights (mixed dtypes: F18)
+        for nm, lhs, rhs, w1, w2 in (('sumcoeff(empty,a2)', [], a2.coefflist, 0, be), ('sumcoeff(a,empty)', a.coefflist, [], al, 0),
+                                     ('sumcoeff(a,a2)', a.coefflist, a2.coefflist, al, be)):
+            res.append(('%s alpha=%r beta=%r' % (nm, al, be), T(T.sumcoeff(lhs, rhs, al, be)), w1, w2))
+        mon.count('empty_left_operand_ops', 3)
         for name, t, s1, s2 in res:
             for u in us:
                 cmp_at(ctx, 'sum', t, s1 * ev(a_raw, u) + s2 * ev(a2_raw, u), u, ctx.mag(a_raw, u) + ctx.mag(a2_raw, u), name)
